@@ -129,6 +129,17 @@ fn one_case(ctx: &Ctx, case: u64, l: &mut Local) {
     for k in 0..reps {
         let decoys = k % 2 == 0;
         l.evals += 1;
+        if !decoys && r.chance(25) {
+            // between a decoy-on and a decoy-off issuance the same instance is asked for something it
+            // must refuse WITH decoys on (claims that are not an object / a reserved name / a bad path):
+            // the refusal leaves nothing behind
+            let _ = match r.below(3) {
+                0 => api::issue_raw(&mut issuer, &json!([1, 2]), sd_jwt_rs::ClaimsForSelectiveDisclosureStrategy::AllLevels, cfg.holder, true, cfg.fmt),
+                1 => api::issue_raw(&mut issuer, &json!({"iss": "i", "exp": 4000000000u64, "o": {"_sd": 1}}), sd_jwt_rs::ClaimsForSelectiveDisclosureStrategy::TopLevel, cfg.holder, true, cfg.fmt),
+                _ => api::issue_raw(&mut issuer, &json!("text"), sd_jwt_rs::ClaimsForSelectiveDisclosureStrategy::NoSDClaims, cfg.holder, true, cfg.fmt),
+            };
+            l.count("refused-decoy-on-call-before-decoy-off");
+        }
         let tagk = if decoys { "decoys-on" } else { "decoys-off" };
         let issued: Issued = match pipeline::issue_with(&mut issuer, &s.u, &s.strat, cfg.holder, decoys, cfg.fmt) {
             Ok(i) => i,
